@@ -1,15 +1,18 @@
 SPECIFICATION Spec
 CONSTANTS
   Shapes <- ShapesC39t
-  MaxBlocks = 3
+  MaxBlocks = 2
   Paths <- WireOnly
   Muts <- OnlyValid
   PreKinds <- KindsC42
+  DuringKinds <- DuringAll
+  Points <- PointsAll
   W = 2
   S = 2
   BitsOf <- RealBits
   BodyChecked = FALSE
   AllowRestart = TRUE
+  AllowSync = FALSE
   FreshInits <- BothFresh
 VIEW view
 INVARIANTS TypeOK Coherent NoMiss IndexAgrees IndexComplete CacheComplete
